@@ -1,6 +1,6 @@
 #!/bin/bash
-# keep3.sh <name> <property> "<detected-by>" — store a round-3 seed from /tmp/seedout3/<name> (NOTES.md gives PKGDIR/RUN/NEEDS)
-D=/tmp/seedout3/$1
+# keep3.sh <name> <property> "<detected-by>" — store a round-3 seed from /tmp/seedout${R:-3}/<name> (NOTES.md gives PKGDIR/RUN/NEEDS)
+D=/tmp/seedout${R:-3}/$1
 PKG=$(grep -m1 '^PKGDIR:' $D/NOTES.md | sed 's/PKGDIR:\s*//; s/\s.*//')
 RUN=$(grep -m1 '^RUN:' $D/NOTES.md | sed 's/RUN:\s*//; s/\s.*//')
 NEEDS=$(grep -m1 '^NEEDS:' $D/NOTES.md | cut -c8-)
